@@ -153,11 +153,20 @@ fn history(ctx: &Ctx, rep: &mut Report, case_seed: u64, variant: u64, always_flu
 	// between their index lookup and their value fetch, the window in which only the
 	// commit-overlay lock keeps the slot they are about to read alive.
 	let reader_windows = variant % 3 == 1;
+	let deep_queue = variant % 9 == 5;
 	if reader_windows {
 		delays::install(case_seed, 0, 0, 0);
 		let ppm = std::env::var("PDBV_READ_PPM").ok().and_then(|s| s.parse().ok()).unwrap_or_else(|| rng.range(3000, 50_000));
 		delays::slow_readers(ppm, rng.range(100, 600));
 		rep.count("histories_reader_windows", 1);
+	} else if deep_queue {
+		// "deep queue" (every ninth history): nothing but the log worker is slowed down, right
+		// before it publishes each record: the clients run far ahead, dozens to thousands of
+		// commits - most of them rewriting the same few keys - wait in the queue while index
+		// growth records are logged in between (record ids run ahead of commit ids)
+		delays::install(case_seed, 0, 0, 0);
+		delays::slow_site(2, rng.range(300, 2500));
+		rep.count("histories_deep_queue", 1);
 	} else {
 		delays::install(case_seed, rng.range(20, 250), rng.range(200, 2500), u64::MAX);
 		if variant % 4 != 3 {
@@ -166,7 +175,7 @@ fn history(ctx: &Ctx, rep: &mut Report, case_seed: u64, variant: u64, always_flu
 	}
 	// one hand-over window is held open in every history (readers run through it many times):
 	// rare sites (reindex record, index drop) long, per-commit sites short
-	match if reader_windows { 0 } else { (variant / 2) % 7 } {
+	match if reader_windows || deep_queue { 0 } else { (variant / 2) % 7 } {
 		1 => delays::slow_site(2, rng.range(100, 600)),    // plan made, record not yet published
 		2 => delays::slow_site(3, rng.range(100, 600)),    // record published, commit overlay not yet cleaned
 		3 => delays::slow_site(5, rng.range(100, 600)),    // tables written, log overlay not yet cleaned
@@ -314,6 +323,10 @@ fn history(ctx: &Ctx, rep: &mut Report, case_seed: u64, variant: u64, always_flu
 		ctx.progress();
 	}
 	stop.store(true, Ordering::SeqCst);
+	if deep_queue {
+		// let the backlog drain at full speed
+		delays::slow_site(0, 0);
+	}
 	let mut logs = vec![];
 	for h in owner_handles {
 		let (log, err) = h.join().expect("owner thread");
